@@ -45,11 +45,12 @@ Convert(m2) ==
   /\ steps' = steps + 1 /\ UNCHANGED <<x, held>>
   /\ last' = [a |-> "convert", from |-> chart, to |-> m2]
 
-\* the abstract point never moves
-PointFixed == c = Coord(x, chart) /\ From(chart, c) = x
+\* the abstract point never moves (query steps leave x, chart and c alone: nothing new to evaluate after them)
+PointFixed == held # <<>> \/ (c = Coord(x, chart) /\ From(chart, c) = x)
 
 \* what the coordinates must satisfy in each model
 InModel ==
+  held # <<>> \/
   CASE chart = "klein" -> RLeq(RNormSq(c), ROne) /\ (RNormSq(c) = ROne <=> Ideal(x))
     [] chart = "poincare" -> RLeq(RNormSq(c), ROne) /\ (RNormSq(c) = ROne <=> Ideal(x))
     [] chart = "hyperboloid" -> RSub(RNormSq(SubSeq(c, 2, N + 1)), RSq(c[1])) = RInt(0 - 1)
@@ -117,7 +118,7 @@ HeldValid == \A i \in 1..Len(held) : held[i][2] = QValue(x, held[i][1])
 \* (this is PointFixed: query steps leave c alone, so it is checked under that name)
 CallerCoordsKept == PointFixed
 \* the distance to the origin agrees with the closed form of the ball models on the exact coordinates
-OriginDistance == Interior(x) => /\ RMul(QValue(x, "dist_origin")[1], RSub(ROne, RNormSq(Poincare(x)))) = RAdd(ROne, RNormSq(Poincare(x)))
+OriginDistance == (held = <<>> /\ Interior(x)) => /\ RMul(QValue(x, "dist_origin")[1], RSub(ROne, RNormSq(Poincare(x)))) = RAdd(ROne, RNormSq(Poincare(x)))
                                  /\ RMul(RSq(QValue(x, "dist_origin")[1]), RSub(ROne, RNormSq(Klein(x)))) = ROne
 
 QNames == [i \in 1..Len(held) |-> held[i][1]]
